@@ -18,8 +18,16 @@ import (
 
 type C10Mon struct{}
 
+func c10NeverValid(n string) bool { return n == "." || n == ".." }
+
 func c10NameInDomain(n string) bool {
-	if n == "" || strings.Trim(n, ".") == "" {
+	if n == "" {
+		return false
+	}
+	if c10NeverValid(n) {
+		return true // words over the alphabet, but not possible as a file name: every operation on them is refused
+	}
+	if strings.Trim(n, ".") == "" {
 		return false
 	}
 	for _, r := range n {
@@ -77,7 +85,7 @@ func c10Expect(st *core.Step, pre brState, r *sandbox.Repo) (alts []brState, ref
 			if !c10NameInDomain(rn) {
 				return nil, false, false
 			}
-			if _, dup := pre.Br[rn]; dup || !hasCommit {
+			if _, dup := pre.Br[rn]; dup || !hasCommit || c10NeverValid(rn) {
 				return nil, true, true
 			}
 			n := pre.without(pre.Head).with(rn, headCommit)
@@ -96,7 +104,7 @@ func c10Expect(st *core.Step, pre brState, r *sandbox.Repo) (alts []brState, ref
 			if !c10NameInDomain(n) {
 				return nil, false, false
 			}
-			if _, dup := pre.Br[n]; dup || !hasCommit {
+			if _, dup := pre.Br[n]; dup || !hasCommit || c10NeverValid(n) {
 				return nil, true, true
 			}
 			return []brState{pre.with(n, headCommit)}, false, true
@@ -109,7 +117,7 @@ func c10Expect(st *core.Step, pre brState, r *sandbox.Repo) (alts []brState, ref
 			if !c10NameInDomain(cn) {
 				return nil, false, false
 			}
-			if _, dup := pre.Br[cn]; dup || !hasCommit {
+			if _, dup := pre.Br[cn]; dup || !hasCommit || c10NeverValid(cn) {
 				return nil, true, true
 			}
 			n := pre.with(cn, headCommit)
@@ -309,7 +317,7 @@ func abstractKey(r *sandbox.Repo) string {
 	return "H=" + r.HeadBranch + " " + strings.Join(parts, ",")
 }
 
-var c10Names = []string{"main", "a", "ab", "b", "a.b", "a-b", ".a"}
+var c10Names = []string{"main", "a", "ab", "b", "a.b", "a-b", ".a", "."}
 
 type c10Node struct {
 	snap  *sandbox.Snap
@@ -442,7 +450,7 @@ func runC10(c *core.Ctx) {
 		}
 		k := NewWalker(w, gen.NameOpts{MaxDepth: 1, N: 3}, wts)
 		k.Hostile = 6
-		k.BranchNames = []string{"main", "a", "ab", "b", "a.b", "a-b", "z", "m", "ma", "main2", "A", "0", "x_y", "v1.0", "zz-top", "Main", ".hotfix", ".a", "_", "a.", "..b", "1", "-x-"[1:]}
+		k.BranchNames = []string{"main", "a", "ab", "b", "a.b", "a-b", "z", "m", "ma", "main2", "A", "0", "x_y", "v1.0", "zz-top", "Main", ".hotfix", ".a", "_", "a.", "..b", "1", "-x-"[1:], ".", ".."}
 		k.Init()
 		if w.Hist%7 != 0 {
 			k.Do("commit-all")
@@ -460,6 +468,22 @@ func runC10(c *core.Ctx) {
 type C14Mon struct{}
 
 func (C14Mon) After(w *core.World, st *core.Step) {
+	if st.Kind == "goit" && st.Cmd() == "commit" && st.Exit == 0 && st.Pre.HasGoit() {
+		// shadow: the message and identity each commit of this history was made with
+		pre, post := st.Pre.Repo(), st.Post.Repo()
+		pa := ParseArgv(st.Argv)
+		if m, ok := pa.Flag("-m", "--message"); ok && pre.HeadOK {
+			if X := post.Branches[pre.HeadBranch]; gitfmt.IsHex40(X) && X != pre.Branches[pre.HeadBranch] {
+				name, email, _, _ := effectiveIdentity(pre)
+				sh, _ := w.Shadow["c14.made"].(map[string][2]string)
+				if sh == nil {
+					sh = map[string][2]string{}
+					w.Shadow["c14.made"] = sh
+				}
+				sh[X] = [2]string{m, name + " <" + email + ">"}
+			}
+		}
+	}
 	if st.Kind != "goit" || st.Cmd() != "log" || !st.Pre.HasGoit() {
 		return
 	}
@@ -550,6 +574,11 @@ func (C14Mon) After(w *core.World, st *core.Step) {
 		if b.Message != cm.Message {
 			w.Fail("C14.fields", "message-differs", trig, "%s: block %d message %q, commit has %q", st.String(), i, clipS(b.Message, 60), clipS(cm.Message, 60))
 		}
+		if sh, _ := w.Shadow["c14.made"].(map[string][2]string); sh != nil {
+			if made, ok := sh[b.ID]; ok && (b.Message != made[0] || b.Author != made[1]) {
+				w.Fail("C14.fields", "not-as-committed", trig, "%s: block %d shows author %q message %q, the commit was made by %q with message %q", st.String(), i, b.Author, clipS(b.Message, 60), made[1], clipS(made[0], 60))
+			}
+		}
 	}
 	// independence: same head commit + same argv => same output, whatever happened to index/worktree/other branches
 	key := "c14.out|" + strings.Join(st.Argv, "\x00") + "|" + hc
@@ -572,6 +601,11 @@ func runC14(c *core.Ctx) {
 		k := NewWalker(w, gen.NameOpts{MaxDepth: 2, N: 4}, wts)
 		k.Hostile = 3
 		k.Init()
+		if w.Hist%3 == 0 {
+			name, email, _ := gen.Identity(w.Rng)
+			w.Goit("config", "user.name", name)
+			w.Goit("config", "user.email", email)
+		}
 		length := 1 + w.Rng.IntN(c.Pick(12, 50))
 		logK := func() {
 			l := len(k.W.State().Repo().LogHEAD)
@@ -611,6 +645,13 @@ func runC14(c *core.Ctx) {
 			msg := fmt.Sprintf("c%d", i)
 			if k.chance(25) {
 				msg = fmt.Sprintf("c%d subject\n\nbody of %d\nsecond body line", i, i)
+			} else if k.chance(40) {
+				// every message class of the quantifiers (tabs, %, blank lines, long lines, non-ASCII ...)
+				m, mc := gen.Message(k.R, i)
+				if !strings.Contains(m, "\ncommit ") {
+					msg = m
+					c.Class("C14.msg|" + mc)
+				}
 			}
 			k.goit("commit", "-m", msg)
 			if k.chance(30) {
